@@ -220,6 +220,101 @@ func sortEdges(es []obs.Edge) []obs.Edge {
 	return out
 }
 
+// ---- types of the default package
+//
+// The statement counts a type of the default package like any other ("one node per project type"), and its
+// package function sends all of them to one group (the default package). What it does not fix is the SPELLING
+// of such a node (".B" as Package+"."+Name gives, or "B") and of that group ("" or any other name), and how
+// either is drawn. The reference model spells them ".B" and ""; ArchAliases reads the spelling the observed
+// graph uses for its own nodes, and only that spelling counts when a relation end is matched against a node.
+
+// ArchAliases maps observed node names to reference names: stage "" - a dot-free name B when ".B" is an
+// expected node that is not itself present; merged stages - the single observed node that is no expected
+// group, when the expected default group "" is not present under that name.
+func ArchAliases(stage string, want *ArchGraph, gotNodes []string) map[string]string {
+	alias := map[string]string{}
+	got := map[string]bool{}
+	for _, n := range gotNodes {
+		got[n] = true
+	}
+	if stage == "" {
+		for _, n := range gotNodes {
+			if n != "" && !strings.Contains(n, ".") && want.Nodes["."+n] && !want.Nodes[n] && !got["."+n] {
+				alias[n] = "." + n
+			}
+		}
+		return alias
+	}
+	if want.Nodes[""] && !got[""] {
+		var extras []string
+		for _, n := range gotNodes {
+			if !want.Nodes[n] {
+				extras = append(extras, n)
+			}
+		}
+		if len(extras) == 1 {
+			alias[extras[0]] = ""
+		}
+	}
+	return alias
+}
+
+// ArchRename applies the aliases to node names and to relation ends that are literally one of the aliased
+// node names; a relation end that uses the reference spelling while the node is spelled otherwise is mapped
+// to a name outside the graph.
+func ArchRename(alias map[string]string, nodes []string, rel []obs.Edge) ([]string, []obs.Edge) {
+	if len(alias) == 0 {
+		return nodes, rel
+	}
+	taken := map[string]bool{} // reference names whose node is spelled differently in this graph
+	for _, c := range alias {
+		taken[c] = true
+	}
+	re := func(s string) string {
+		if c, ok := alias[s]; ok {
+			return c
+		}
+		if taken[s] {
+			// the graph spells this node differently: a relation end in the reference spelling does not
+			// reach it (it is some name that is no node of the graph)
+			return "\x00not-the-node:" + s
+		}
+		return s
+	}
+	var ns []string
+	for _, n := range nodes {
+		ns = append(ns, re(n))
+	}
+	var es []obs.Edge
+	for _, e := range rel {
+		es = append(es, obs.Edge{From: re(e.From), To: re(e.To)})
+	}
+	return ns, es
+}
+
+// ArchOpenInDot: names whose drawing the statement leaves open (nodes of the default package under either
+// spelling; the default group under its reference or observed name). Leaves with these names, edges that
+// touch them, and their absence are not judged by CheckArchDot.
+func ArchOpenInDot(stage string, want *ArchGraph, alias map[string]string) map[string]bool {
+	open := map[string]bool{}
+	if stage == "" {
+		for n := range want.Nodes {
+			if strings.HasPrefix(n, ".") {
+				open[n] = true
+				open[n[1:]] = true
+			}
+		}
+		return open
+	}
+	if want.Nodes[""] {
+		open[""] = true
+		for a := range alias {
+			open[a] = true
+		}
+	}
+	return open
+}
+
 // CheckArchGraph decides node-set equality and equality of the observed relation restricted to pairs of
 // expected nodes with the expected edge set. stage is "" for the type-level graph, otherwise a prefix such
 // as "mergeH" that names the quotient under test. Relations that leave the node set (to non-project types,
@@ -398,8 +493,9 @@ func isSegPrefix(a, b string) bool { return a != b && strings.HasPrefix(b, a+"."
 //   - every included node is shown exactly once. Exception, left open by the statement: a node whose name
 //     is a segment-prefix of another included node (a type named like a package; after merging, a package
 //     that has sub-packages) is not required to be shown, but if shown it is subject to all other clauses;
-//   - every edge joins two declared leaves, and the edge set equals want.Edges restricted to the shown nodes.
-func CheckArchDot(stage string, want *ArchGraph, included map[string]bool, d *ArchDot) []Mismatch {
+//   - every edge joins two declared leaves, and the edge set equals want.Edges restricted to the shown nodes;
+//   - names in `open` (nodes of the default package, see ArchOpenInDot) are exempt from all of the above.
+func CheckArchDot(stage string, want *ArchGraph, included map[string]bool, open map[string]bool, d *ArchDot) []Mismatch {
 	var out []Mismatch
 	pre := "dot-"
 	if stage != "" {
@@ -414,6 +510,8 @@ func CheckArchDot(stage string, want *ArchGraph, included map[string]bool, d *Ar
 		idCount[l.ID]++
 		idFull[l.ID] = full
 		switch {
+		case open[full]:
+			// a node of the default package: how it is drawn is left open
 		case !want.Nodes[full]:
 			out = append(out, Mismatch{pre + "node-unknown", fmt.Sprintf("DOT shows leaf %s = %q (sub-graph labels %v, label %q), which is no node of the graph", l.ID, full, l.Path, l.Label)})
 		case !included[full]:
@@ -426,29 +524,29 @@ func CheckArchDot(stage string, want *ArchGraph, included map[string]bool, d *Ar
 		}
 	}
 	for _, full := range sortedKeysInt(count) {
-		if count[full] > 1 {
+		if count[full] > 1 && !open[full] {
 			out = append(out, Mismatch{pre + "node-duplicate", fmt.Sprintf("DOT shows %q %d times", full, count[full])})
 		}
 	}
 	inc := sortedNodes(included)
 	for _, n := range inc {
-		if count[n] > 0 {
+		if count[n] > 0 || open[n] {
 			continue
 		}
-		open := false
+		optional := false
 		for _, o := range inc {
 			if isSegPrefix(n, o) {
-				open = true
+				optional = true
 				break
 			}
 		}
-		if !open {
+		if !optional {
 			out = append(out, Mismatch{pre + "node-missing", fmt.Sprintf("DOT does not show included node %q (shown: %v)", n, sortedKeysInt(count))})
 		}
 	}
 	shown := map[string]bool{}
 	for full := range count {
-		if want.Nodes[full] {
+		if want.Nodes[full] && !open[full] {
 			shown[full] = true
 		}
 	}
@@ -458,6 +556,9 @@ func CheckArchDot(stage string, want *ArchGraph, included map[string]bool, d *Ar
 		t, okt := idFull[e.To]
 		if !okf || !okt {
 			out = append(out, Mismatch{pre + "edge-undisplayed-endpoint", fmt.Sprintf("DOT edge %s -> %s: an endpoint is not a displayed node", e.From, e.To)})
+			continue
+		}
+		if open[f] || open[t] {
 			continue
 		}
 		ee := obs.Edge{From: f, To: t}
